@@ -83,12 +83,22 @@ class FsmSim:
         self.rev = 0
         ctx._rev = lambda: f'rev{self.rev}'  # pylint: disable=protected-access
 
+        class TimeMachine:
+            '''stands in for RollbackImporter (which hooks builtins.__import__ once per boot)'''
+
+            def reload(self):
+                return None
+
+        self._saved['RollbackImporter'] = state.RollbackImporter
+        state.RollbackImporter = TimeMachine
+
     def close(self):
         self.farm.plow = self._saved['plow']
         self.tsubmit.already_applied = self._saved['already_applied']
         self.tsubmit.automatic = self._saved['automatic']
         self.tsubmit.mail_out = self._saved['mail_out']
         self.ctx._rev = self._saved['_rev']  # pylint: disable=protected-access
+        self.state_mod.RollbackImporter = self._saved['RollbackImporter']
 
     def new_fsm(self, at_rest=False):
         '''fresh machine in `starting` (or placed at rest in running)'''
